@@ -621,11 +621,12 @@ func c10Run(c *Case) (out string, fails []Fail) {
 	// Anything a serializer / rewriter instance keeps that still points into a released record shows up as another
 	// record's value in a later event.
 	arena := c10NewArena(cc.recs, cc.nrec)
+	record := &base.LogRecord{} // ONE record object (and one Fields slice) for the whole history: records are pooled too
 	var recOuts []string
 	for ri := range cc.recs {
 		rc := &cc.recs[ri]
 		fields := arena.load(rc.fields)
-		record := &base.LogRecord{Fields: fields, RawLength: 1, Timestamp: time.Unix(rc.unix, rc.nsec), Unescaped: rc.unescaped}
+		*record = base.LogRecord{Fields: fields, RawLength: 1, Timestamp: time.Unix(rc.unix, rc.nsec), Unescaped: rc.unescaped}
 		wantEntries, wantSize, unescNow := c10Expected(cc, rc, nil)
 		var outs []string
 		for j, ser := range sers {
@@ -704,8 +705,9 @@ func c10Run(c *Case) (out string, fails []Fail) {
 // c10Arena: one backing buffer for the fields of all records of a history; slot i (the maximum length of field i
 // over the history) holds field i of the current record.
 type c10Arena struct {
-	mem  []byte
-	offs []int
+	mem    []byte
+	offs   []int
+	fields base.LogFields
 }
 
 func c10NewArena(recs []c10Rec, nrec int) *c10Arena {
@@ -728,7 +730,10 @@ func (a *c10Arena) load(vals []string) base.LogFields {
 	for i := range a.mem {
 		a.mem[i] = 0xA5
 	}
-	fields := make(base.LogFields, len(vals))
+	if len(a.fields) != len(vals) {
+		a.fields = make(base.LogFields, len(vals))
+	}
+	fields := a.fields
 	for i, v := range vals {
 		dst := a.mem[a.offs[i] : a.offs[i]+len(v)]
 		copy(dst, v)
